@@ -13,7 +13,7 @@ From Coq Require Import List NArith ZArith Bool QArith Qcanon.
 From Okv Require Import Base.Maps Base.Dec Model.Lit Model.Syntax Model.Comb Model.ParseExpr Model.ParseLedger
      Model.Load Model.Amount Model.Book Model.Query Model.PriceDb Model.PriceHazard Model.Convert
      Model.Intern Model.Named Model.Display Model.DisplaySpec Model.Lower
-     Proofs.ParseTotal Proofs.LitShow Proofs.TotalLoad Proofs.TotalReport Proofs.TotalFormat
+     Proofs.ParseTotal Proofs.ExprHeight Proofs.LitShow Proofs.TotalLoad Proofs.TotalReport Proofs.TotalFormat
      Proofs.TotalLit Proofs.TotalPipeline
      Model.Pipeline Proofs.PipelineLoad Proofs.PipelineProofs.
 Import ListNotations.
@@ -34,6 +34,39 @@ Theorem C06_depth_bounded : forall fuel i v r,
   value_expr fuel i = POk v r -> (vexpr_depth v <= max_expr_depth)%nat.
 Proof. exact value_expr_depth_bounded. Qed.
 Print Assumptions C06_depth_bounded.
+
+(* ... and never returns a syntax tree taller than max_expr_height (= MAX_EXPR_HEIGHT = 256; an
+   amount is 1, parentheses, a negation and an operator one more than their tallest operand),
+   whatever the input (finding C06-F23: a chain of n operators used to be parsed, by a loop, into
+   a tree of height n + 1, and evaluating, printing and dropping it overflowed the stack) *)
+Theorem C06_height_bounded : forall fuel i v r,
+  value_expr fuel i = POk v r -> (vexpr_height v <= max_expr_height)%nat.
+Proof. exact value_expr_height_bounded. Qed.
+Print Assumptions C06_height_bounded.
+
+(* in particular a chain of operators that is parsed has fewer than max_expr_height operators *)
+Theorem C06_chain_bounded : forall e, (chain_length e < expr_height e)%nat.
+Proof. exact chain_length_height. Qed.
+Print Assumptions C06_chain_bounded.
+
+(* every value expression (amount, cost, lot price, balance assertion) of every ledger that
+   parse_ledger returns is within both bounds ... *)
+Theorem C06_parsed_exprs_bounded : forall s es,
+  parse_ledger s = LOk es ->
+  Forall (fun v => (vexpr_height v <= max_expr_height)%nat /\ (vexpr_depth v <= max_expr_depth)%nat)
+         (ledger_vexprs (map e_entry es)).
+Proof. exact parsed_exprs_bounded. Qed.
+Print Assumptions C06_parsed_exprs_bounded.
+
+(* ... and the tree the report layer evaluates for it (Model/Lower.v low_v) has the same
+   height: the structural recursions over these trees - report/eval.rs eval_visit (Model/Amount.v
+   eval_v), syntax/display.rs (Model/Display.v fmt_vexpr) and Drop - go at most
+   max_expr_height levels deep *)
+Theorem C06_eval_depth_bounded : forall s es tc v,
+  parse_ledger s = LOk es -> In v (ledger_vexprs (map e_entry es)) ->
+  (eval_height_v (snd (low_v tc v)) <= max_expr_height)%nat.
+Proof. exact lowered_height_bounded. Qed.
+Print Assumptions C06_eval_depth_bounded.
 
 (* ---------- loading ---------- *)
 
